@@ -148,9 +148,11 @@ struct _receiver<Predecessor, Receiver, Func, FuncPolicy>::type {
       // Sequential implementation
       return unifex::then(
           unifex::just(std::forward<Values>(values)...),
-          [this, begin_it, end_it](auto... values) {
+          // capture the predicate by value: this helper object is a temporary
+          // that is gone by the time the returned sender runs
+          [func = std::move(func_), begin_it, end_it](auto... values) mutable {
             for (auto it = begin_it; it != end_it; ++it) {
-              if (std::invoke((Func&&)func_, *it, values...)) {
+              if (std::invoke(func, *it, values...)) {
                 return std::tuple<Iterator, Values...>(
                     it, std::move(values)...);
               }
